@@ -18,6 +18,7 @@ import CBV.Lemmas.C11Distinct
 import CBV.Lemmas.C11Oval
 import CBV.Lemmas.C11Rev
 import CBV.Lemmas.C11RevDisk
+import CBV.Lemmas.C11RevWrap
 import Mathlib.Analysis.Real.Sqrt
 import Mathlib.Tactic.NormNum
 import Mathlib.Tactic.Ring
@@ -931,6 +932,34 @@ theorem T_C11_revolved_disk_real (cl : DiskCls) (o k N : P3 ℝ) (x0 y0 α β cs
         coreRatioR diagRatioR cs sn k o, H.RH :=
   T_C11_revolved_disk_rightHanded cl o k N x0 y0 α β _ _ _ cs sn hk hN hNk hsn hy hs hr (T_C11_disk_constants cl)
     (le_of_eq T_C11_half_sqrt_two)
+
+/-- **`RevolvedShape` of a `WrappedDisk`**: for every axis in the sketch plane (point `o`, unit direction `k`, unit
+    sketch normal `N ⟂ k`), every centre at height `y0 > 0` over the axis, every corner vector `α k + β (N × k)` shorter
+    than `y0` (the axis passes outside the circle through the four corners — the bounding circle of the sketch),
+    `0 < radius < wn` (inner circle inside the square), `0 < diagonal_ratio < 1` and every sweep with positive sine
+    (0 < angle < π): every block between the sketch and its turned copy has eight positive corner Jacobians.
+    (`revolved_fan_RH`: the same for any sketch given in the frame of a fan inside its unit disk.) -/
+theorem T_C11_revolved_wrapped_rightHanded {K : Type} [Field K] [LinearOrder K] [IsStrictOrderedRing K]
+    (o k N : P3 K) (x0 y0 α β h dg radius wn cs sn : K)
+    (hk : P3.nsq k = 1) (hN : P3.nsq N = 1) (hNk : P3.dot N k = 0) (hsn : 0 < sn) (hy : 0 < y0)
+    (hs : 0 < α * α + β * β) (hr : α * α + β * β < y0 * y0)
+    (hd0 : 0 < dg) (hd1 : dg < 1) (hr0 : 0 < radius) (hr1 : radius < wn) :
+    ∀ H ∈ revolveOf (sketchQuads "WrappedDisk")
+        (wrappedPts (frame o k N ⟨x0, y0, 0⟩)
+          (P3.add (frame o k N ⟨x0, y0, 0⟩) (P3.add (P3.smul α k) (P3.smul β (P3.cross N k)))) N h dg radius wn)
+        (frame o k N ⟨x0, y0, 0⟩) cs sn k o, H.RH :=
+  revolved_wrapped_RH o k N x0 y0 α β h dg radius wn cs sn hk hN hNk hsn hy hs hr hd0 hd1 hr0 hr1
+
+/-- non-vacuity: a wrapped disk with its corner at distance √2, circle of radius 1/2 (witness `wn = 7/5`), centre 3
+    above the x axis, turned by (cos, sin) = (3/5, 4/5) -/
+example : ∀ H ∈ revolveOf (sketchQuads "WrappedDisk")
+    (wrappedPts (frame (⟨0, 0, 0⟩ : P3 Rat) ⟨1, 0, 0⟩ ⟨0, 0, 1⟩ ⟨1, 3, 0⟩)
+      (P3.add (frame ⟨0, 0, 0⟩ ⟨1, 0, 0⟩ ⟨0, 0, 1⟩ ⟨1, 3, 0⟩)
+        (P3.add (P3.smul 1 ⟨1, 0, 0⟩) (P3.smul 1 (P3.cross ⟨0, 0, 1⟩ ⟨1, 0, 0⟩)))) ⟨0, 0, 1⟩ (7 / 10) (9 / 10) (1 / 2) (7 / 5))
+    (frame ⟨0, 0, 0⟩ ⟨1, 0, 0⟩ ⟨0, 0, 1⟩ ⟨1, 3, 0⟩) (3 / 5) (4 / 5) ⟨1, 0, 0⟩ ⟨0, 0, 0⟩, H.RH :=
+  T_C11_revolved_wrapped_rightHanded _ _ _ 1 3 1 1 _ _ _ _ _ _ (by norm_num [P3.nsq, P3.dot])
+    (by norm_num [P3.nsq, P3.dot]) (by norm_num [P3.dot]) (by norm_num) (by norm_num) (by norm_num) (by norm_num)
+    (by norm_num) (by norm_num) (by norm_num) (by norm_num)
 
 /-! ## Part G — joints: one construction for every branch count -/
 
